@@ -96,6 +96,15 @@ func drawSubset[T any](t *rapid.T, label string, pool []T, absent func(i int) T)
 // numerator out of 10 that a condition is present.
 func (p *FilterPool) DrawFilter(t *rapid.T, label string) *mocrelay.ReqFilter {
 	f := &mocrelay.ReqFilter{}
+	if len(p.TagNames) > 0 && rapid.IntRange(0, 7).Draw(t, label+"tagonly?") == 0 {
+		// one multi-valued #x condition with a small limit
+		name := rapid.SampledFrom(p.TagNames).Draw(t, label+"toname")
+		f.Tags = map[string][]string{name: append([]string{}, p.TagVals[name]...)}
+		if rapid.Bool().Draw(t, label+"tolim?") {
+			f.Limit = ptr(rapid.Int64Range(1, 3).Draw(t, label+"tolim"))
+		}
+		return f
+	}
 	pres := func(name string, num int) bool {
 		return rapid.IntRange(0, 9).Draw(t, label+name+"?") < num
 	}
